@@ -80,3 +80,19 @@ package p2c
 //@   ensures [sampled-pair-decided-by-choose] n >= 3 ==> calls(choose) == 1 && arg(choose, 1) != nil && arg(choose, 2) != nil
 //@   ensures [chosen-accounted] n > 0 ==> result1 == nil && result0.SubConn == ret(choose).conn && ret(choose).inflight == old(ret(choose).inflight) + 1 && ret(choose).requests == old(ret(choose).requests) + 1 && calls(p.buildDoneFunc, ret(choose)) == 1
 //@   ensures [under-lock] calls(on("lock", p.lock)) == 1 && calls(on("unlock", p.lock)) == 1
+
+// Build: no ready connection => an error picker; otherwise exactly one subConn per ready connection, starting
+// healthy (success 1000) with nothing in flight.
+//@ func (*p2cPickerBuilder).Build
+//@   prop C14
+//@   opaque NewErrPicker, NewAtomicDuration
+//@   loop 1 iteration-ensures [one-subconn-per-ready-connection] len(conns) == at_head(len(conns)) + 1 && conns[at_head(len(conns))] != nil && conns[at_head(len(conns))].conn == conn && conns[at_head(len(conns))].success == 1000 && conns[at_head(len(conns))].inflight == 0 && conns[at_head(len(conns))].requests == 0 && fresh(conns[at_head(len(conns))])
+//@   ensures [none-ready] len(info.ReadySCs) == 0 ==> calls(base.NewErrPicker, balancer.ErrNoSubConnAvailable) == 1 && result == ret(NewErrPicker)
+//@   ensures [picker-over-them] len(info.ReadySCs) != 0 ==> typeis(result, ptr(p2cPicker)) && unbox(result, ptr(p2cPicker)).conns == local(conns)
+// load: sqrt(lag+1) x (in-flight+1), and the penalty when that is 0 (so an idle fresh connection is not preferred
+// blindly).
+//@ func (*subConn).load
+//@   prop C14
+//@   requires c != nil && c.inflight >= 0 && c.lag < 4000000000000000000
+//@   ensures [formula] result == ite(trunc(ret(math.Sqrt)) * (c.inflight + 1) == 0, 2147483647, trunc(ret(math.Sqrt)) * (c.inflight + 1)) && arg(math.Sqrt, 0) == real(c.lag + 1)
+//@   modifies nothing
